@@ -92,6 +92,38 @@ def batches (m : Msg) (chunks : List Bytes) (flushAfter : List Bool) : List Byte
 
 def withinCap (max : Nat) (bs : List Bytes) : Bool := bs.all (fun b => b.length ≤ max)
 
+/-! ### the client's request writer (`writeRequest` of src/client/client.cc) -/
+
+structure Req where
+  method : Bytes                       -- the method's text
+  path : Bytes                         -- path part of the URL given to the builder
+  query : List (Bytes × Bytes)
+  cookies : List (Bytes × Bytes)
+  headers : List (Bytes × Bytes)       -- name, written value
+  host : Bytes
+  body : Bytes
+
+def sepBy (sep : Bytes) : List Bytes → Bytes
+  | [] => []
+  | [x] => x
+  | x :: xs => x ++ sep ++ sepBy sep xs
+
+/-- `Query::as_str`: `?k=v&k=v`, nothing when there are no parameters -/
+def queryStr (q : List (Bytes × Bytes)) : Bytes :=
+  if q.isEmpty then [] else 63 :: sepBy [38] (q.map fun p => p.1 ++ [61] ++ p.2)
+
+def requestTarget (r : Req) : Bytes :=
+  (if r.path.head? = some 47 then [] else [47]) ++ r.path ++ queryStr r.query
+
+def requestBytes (r : Req) : Bytes :=
+  r.method ++ [32] ++ requestTarget r ++ bytes " HTTP/1.1" ++ crlf
+    ++ bytes "Cookie: " ++ sepBy (bytes "; ") (r.cookies.map fun p => p.1 ++ [61] ++ p.2) ++ crlf    -- written even without cookies
+    ++ (r.headers.map headerLine).flatten
+    ++ headerLine (bytes "User-Agent", bytes "pistache/0.1")
+    ++ headerLine (bytes "Host", r.host)
+    ++ (if r.body.isEmpty then [] else headerLine (bytes "Content-Length", natToDec r.body.length))
+    ++ crlf ++ r.body
+
 /-! ### an independent reader of what was emitted (RFC 7230 framing), used to state C05 -/
 
 /-- split at the first CRLF CRLF -/
